@@ -17,6 +17,7 @@ import (
 
 	"github.com/libp2p/go-libp2p/internal/vfh"
 	ma "github.com/multiformats/go-multiaddr"
+	manet "github.com/multiformats/go-multiaddr/net"
 )
 
 type vfC20Kind struct {
@@ -27,16 +28,49 @@ type vfC20Kind struct {
 
 func (k vfC20Kind) key() string { return fmt.Sprintf("%v/%v/%v", k.Pub, k.UDP, k.IP6) }
 
-// concrete multiaddrs for each abstract address kind; several textual forms per kind
-var vfC20Forms = map[vfC20Kind][]string{
-	{true, true, false}:   {"/ip4/1.2.3.4/udp/1234/quic-v1", "/ip4/8.8.8.8/udp/1/quic-v1/webtransport", "/ip4/203.0.114.7/udp/4001/webrtc-direct"},
-	{true, false, false}:  {"/ip4/1.2.3.4/tcp/1234", "/ip4/8.8.4.4/tcp/443/tls/ws", "/ip4/151.101.1.1/tcp/4001"},
-	{true, true, true}:    {"/ip6/2001:4860:4860::8888/udp/1234/quic-v1", "/ip6/2606:4700::1111/udp/443/quic-v1/webtransport"},
-	{true, false, true}:   {"/ip6/2001:4860:4860::8888/tcp/1234", "/ip6/2606:4700::1111/tcp/443/tls/ws"},
-	{false, true, false}:  {"/ip4/192.168.1.5/udp/1234/quic-v1", "/ip4/127.0.0.1/udp/1/quic-v1", "/ip4/10.1.2.3/udp/4001/quic-v1/webtransport"},
-	{false, false, false}: {"/ip4/192.168.1.5/tcp/1234", "/ip4/127.0.0.1/tcp/1", "/ip4/172.16.0.9/tcp/4001/ws"},
-	{false, true, true}:   {"/ip6/fe80::1/udp/1234/quic-v1", "/ip6/::1/udp/1/quic-v1", "/ip6/fc00::5/udp/4001/quic-v1"},
-	{false, false, true}:  {"/ip6/fe80::1/tcp/1234", "/ip6/::1/tcp/1", "/ip6/fd00::5/tcp/4001"},
+// Concrete multiaddrs for each abstract address kind.  The families are built at start-up from a broad
+// list of IP literals (ordinary public and private ranges, but also CGNAT 100.64/10, benchmarking
+// 198.18/15, documentation ranges, link-local, unique-local, NAT64, 6to4, IPv4-mapped IPv6, multicast,
+// reserved) crossed with transport suffixes, and classified by manet.IsPublicAddr and by the protocols
+// the multiaddr contains - NOT by the detector's own helpers - so a detector that classifies an unusual
+// range differently from the rest of the stack is seen.
+var vfC20Forms = map[vfC20Kind][]string{}
+
+func init() {
+	ips := []string{
+		"/ip4/1.2.3.4", "/ip4/8.8.8.8", "/ip4/151.101.1.1", "/ip4/203.0.113.7", "/ip4/100.64.1.1", "/ip4/100.127.255.254",
+		"/ip4/198.18.0.1", "/ip4/192.0.2.1", "/ip4/198.51.100.9", "/ip4/169.254.1.1", "/ip4/192.168.1.5", "/ip4/10.1.2.3",
+		"/ip4/172.16.0.9", "/ip4/172.31.255.1", "/ip4/127.0.0.1", "/ip4/192.0.0.8", "/ip4/240.0.0.1", "/ip4/224.0.0.251",
+		"/ip6/2001:4860:4860::8888", "/ip6/2606:4700::1111", "/ip6/2a00:1450:4001::1", "/ip6/2001:db8::1", "/ip6/fe80::1",
+		"/ip6/::1", "/ip6/fc00::5", "/ip6/fd00::5", "/ip6/64:ff9b::102:304", "/ip6/2002:102:304::1", "/ip6/::ffff:1.2.3.4",
+		"/ip6/::ffff:192.168.1.5", "/ip6/ff02::1", "/ip6/100::1",
+		"/dns4/example.com", "/dns6/example.com", "/dns/example.com",
+	}
+	sfx := []string{"/tcp/4001", "/tcp/443/tls/ws", "/udp/4001/quic-v1", "/udp/443/quic-v1/webtransport", "/udp/4001/webrtc-direct"}
+	for _, ip := range ips {
+		for _, sf := range sfx {
+			a, err := ma.NewMultiaddr(ip + sf)
+			if err != nil {
+				continue
+			}
+			k := vfC20Kind{Pub: manet.IsPublicAddr(a)}
+			for _, pr := range a.Protocols() {
+				switch pr.Code {
+				case ma.P_UDP:
+					k.UDP = true
+				case ma.P_IP6:
+					k.IP6 = true
+				}
+			}
+			vfC20Forms[k] = append(vfC20Forms[k], a.String())
+		}
+	}
+	for _, k := range []vfC20Kind{{true, true, false}, {true, false, false}, {true, true, true}, {true, false, true},
+		{false, true, false}, {false, false, false}, {false, true, true}, {false, false, true}} {
+		if len(vfC20Forms[k]) == 0 {
+			panic("verif C20: no concrete address form for kind " + k.key())
+		}
+	}
 }
 
 func vfC20Kinds(l []any) []vfC20Kind {
